@@ -112,3 +112,25 @@ def in_range(x):
 
 def clip(p):
     return min(max(p, -1), 1)
+
+
+class Probe(RuleBase):
+    """Placed first in a control: when consulted it asks every real rule for its proposal in the current state
+    and logs them (rules are functions of the state), so the oracle does not depend on how, how often or in which
+    order the control itself consults its rules.  It never proposes anything."""
+
+    def __init__(self, rules, model, log):
+        self.rules, self.model, self.log = rules, model, log
+
+    def apply(self):
+        k = len(self.model.pt.time) - 1
+        if any(e[0] == k for e in self.log):
+            return None
+        props = []
+        for r in self.rules:
+            try:
+                props.append(r.apply())
+            except Exception as e:
+                props.append(('exc', type(e).__name__))
+        self.log.append((k, props))
+        return None
